@@ -55,7 +55,26 @@ def violation(text, root):
         a = [t for t in want if t not in ns]
         i = next(i for i, (x, y) in enumerate(zip(main, a)) if x != y)
         return f'order changed outside footnotes: output has {main[i:i + 3]} where the input has {a[i:i + 3]}'
-    # other invented text: every output text piece must come from the input (or be one of the two strings bluebell adds)
+    # invented text: '(content missing)' may only stand in for a footnote whose content really is missing. When the text
+    # has exactly one reference and exactly one block for a marker, the block's content belongs in that note.
+    refs = Counter(re.findall(r'\{\{FOOTNOTE ([^ \n}]+)\}\}', text))
+    blocks = Counter(m.strip() for m in re.findall(r'^[ \t]*FOOTNOTE ([^ \n]+)[ \t]*$', text, re.M))
+
+    def notes_of(n, acc):
+        if isinstance(n, str) or n[0] == 'meta':
+            return acc
+        if n[0] == 'authorialNote':
+            acc.append(n)
+        for k in n[2]:
+            notes_of(k, acc)
+        return acc
+
+    def flat(n):
+        return n if isinstance(n, str) else ''.join(flat(k) for k in n[2])
+    for note in notes_of(r['xml'], []):
+        m = note[1].get('marker')
+        if m and refs.get(m) == 1 and blocks.get(m) == 1 and flat(note).strip() == '(content missing)' and '(content missing)' not in text:
+            return f"invented text: the note for {{{{FOOTNOTE {m}}}}} says '(content missing)' although the text has a FOOTNOTE {m} block"
     return None
 
 
